@@ -183,6 +183,9 @@ func genConds(r *rand.Rand, sep string, sample []interface{}) ([]cond, []string)
 			c.key = ks[r.Intn(len(ks))]
 			real = sib[c.key]
 		}
+		if c.key == "" {
+			c.key, real = c07keys[r.Intn(len(c07keys))], nil // a condition on the empty key has no spelling the documentation defines
+		}
 		id := fmt.Sprint(c.neg, c.key)
 		if seen[id] {
 			continue
@@ -377,6 +380,38 @@ func (c08) Case(c *core.Ctx) {
 	if r.Intn(3) == 0 {
 		// a long key name high up: path length in characters and in segments then disagree
 		root = jv.M{"configuration-section": root, "x": jv.M{"y": g.Value(r, 2, false)}}
+	}
+	if r.Intn(8) == 0 {
+		// "" is a key like any other: below the top level a path spells it as an empty segment ("a..k"). One map node
+		// below the root gets its entries moved under such a key (never the first or the last segment of a path).
+		var nodes []map[string]interface{}
+		var walk func(v interface{}, depth int)
+		walk = func(v interface{}, depth int) {
+			switch t := v.(type) {
+			case map[string]interface{}:
+				if depth > 0 && len(t) > 0 {
+					nodes = append(nodes, t)
+				}
+				for _, kk := range sortedKeys(t) {
+					walk(t[kk], depth+1)
+				}
+			case []interface{}:
+				for _, e := range t {
+					walk(e, depth)
+				}
+			}
+		}
+		walk(map[string]interface{}(root), 0)
+		if len(nodes) > 0 {
+			n := nodes[r.Intn(len(nodes))]
+			inner := map[string]interface{}{}
+			for kk, e := range n {
+				inner[kk] = e
+				delete(n, kk)
+			}
+			n[""] = inner
+			c.Count("shape:interior-empty-key")
+		}
 	}
 	if r.Intn(6) == 0 && !jv.HasListInList(root) {
 		c.Add("shape:aliased-submaps", int64(jv.Alias(r, root, 1+r.Intn(2), nil)))
